@@ -165,8 +165,9 @@ theorem c16_numbered_inheritInto (kw : Option ChildKw) (v : Node) :
   cases kw <;> simp [inheritInto, c16_numbered_propagate, c16_numbered_setFlags]
 
 /-- the fallback value of `!extend` / the first-stage value of `!append` keeps the invariant -/
-theorem c16_numbered_newPlainList {vs : List Node} (hv : ∀ v, v ∈ vs → c16_numbered v = true) :
-    c16_numbered (newPlainList vs) = true := by
+theorem c16_numbered_newPlainList (f : Flags) {vs : List Node} (hv : ∀ v, v ∈ vs → c16_numbered v = true) :
+    c16_numbered (newPlainList f vs) = true := by
+  simp only [newPlainList, c16_numbered_propagate]
   refine c16_numbered_comp.2 ⟨.inr (c16_listKeys_renumFrom 0 _), c16_numberedList_renumFrom 0 _ ?_⟩
   intro v hm
   simp only [List.mem_map] at hm
